@@ -1,0 +1,23 @@
+//go:build verif
+
+package migrator
+
+// Contracts checked by /verif/gocv (comment-only file; see /verif/DESIGN.md).
+//
+// C37. Migration is complete and faithful, function by function:
+//   MigrateStorage                 every bucket the source lists has been migrated when nil is returned
+//   createMissingBuckets           every missing bucket has been created when nil is returned
+//   migrateObjectsOfBucket...      a non-empty destination bucket is refused before anything is written; otherwise
+//                                  every object the source lists has been migrated when nil is returned
+//   migrateSingleObject            what is handed to the uploader carries bucket, key, content type, every metadata
+//                                  field, the tag set and the storage class of the source object
+//   adapter PutObject / CreateMultipartUpload   what reaches the destination storage carries those fields
+
+//@ func MigrateStorage
+//@ property C37
+//@ history[C37:h-bucket-migrated] every migrateObjectsOfBucketFromSourceStorageToDestinationStorage(_, $s, $d, $b) -> ($e)
+//@     where ($e == nil && $s == source && $d == destination) ==> histBucketMigrated($b)
+//@ loop 0 invariant 0 <= iter__ && iter__ <= len(allSourceBuckets) &&
+//@     forall k :: 0 <= k && k < iter__ ==> histBucketMigrated(allSourceBuckets[k].Name)
+//@ ensures[C37:every-source-bucket-migrated] err == nil ==>
+//@     forall k :: 0 <= k && k < len(last_result_of(source.ListBuckets, 0)) ==> histBucketMigrated(last_result_of(source.ListBuckets, 0)[k].Name)
